@@ -49,6 +49,9 @@ impl DupMap { #[verifier::external_body] pub fn get(&self, k: &NpoTypeId) -> (r:
 pub struct WidSet { pub s: Ghost<Set<u32>> }
 impl WidSet { #[verifier::external_body] pub fn contains(&self, k: &u32) -> (r: bool) ensures r == self.s@.contains(*k) { unimplemented!() } }
 /// the fields of PreprocessedColumns the recompose preprocessor reads
+/// a set of slot indices computed by the dropped prefix (HashSet<usize>): contents arbitrary
+pub struct IdxSet { pub s: Ghost<Set<usize>> }
+impl IdxSet { #[verifier::external_body] pub fn contains(&self, k: &usize) -> (r: bool) ensures r == self.s@.contains(*k) { unimplemented!() } }
 pub struct PrepView { pub ext_reads: Vec<u32>, pub dup_npo_outputs: DupMap, pub hint_output_wids: WidSet }
 pub open spec fn coef_ok(new: Seq<V>, old: Seq<V>, er: Seq<u32>, hints: Set<u32>, rs: int, i: int, d: int) -> bool {
     let cw = (old[rs + 2 + i * 2].0 as usize / (d as usize)) as int;
@@ -143,8 +146,12 @@ def build():
     # ------------------------------------------------------------------ recompose_preprocess_for_op[row]
     R = 'circuit-prover/src/batch_stark_prover/recompose.rs'
     c = common(u.extract(R, '', 'recompose_preprocess_for_op', 'recompose_preprocess_for_op[row]'))
+    full_ = c.body
     slice_loop_body(c, r'for row_idx in 0\.\.num_rows \{', 'lookup of the op type\'s rows, base conversion, width check; the final insert')
-    c.set_sig('R11', 'fn recompose_preprocess_for_op<const D: usize>(prep: &PrepView, op_type: &NpoTypeId, coeff_lookups: bool, prep_base: &mut Vec<V>, row_idx: usize, prep_width: usize, neg_one: V)', sliced=True)
+    # R13: index sets (`let NAME: HashSet<usize> = ..`) computed by the dropped prefix and read by the row body become parameters with arbitrary contents
+    extra_ = [m_.group(1) for m_ in re.finditer(r'let (\w+): HashSet<usize> =', full_) if re.search(r'(?<![.\w])' + m_.group(1) + r'\b', c.body)]
+    c.set_sig('R11', 'fn recompose_preprocess_for_op<const D: usize>(prep: &PrepView, op_type: &NpoTypeId, coeff_lookups: bool, prep_base: &mut Vec<V>, row_idx: usize, prep_width: usize, neg_one: V'
+              + ''.join(f', {nm_}: &IdxSet' for nm_ in extra_) + ')', sliced=True)
     unand_then_get_unwrap_or(c)
     unget_copied_unwrap_or(c)
     c.attr('#[verifier::loop_isolation(false)]')
